@@ -1,26 +1,424 @@
-//! C18: not implemented yet.
+//! C18: formatting is idempotent.
+//!
+//! Oracle: for every text x the formatter accepts under configuration c,
+//! `fmt_c(fmt_c(x)) == fmt_c(x)` byte for byte (a second pass that errors or panics is a
+//! violation too: it does not "return exactly the same text").
+//!
+//! Explored set: the FIXED enumeration  corpus x (configs, identity variant)  +
+//! corpus x (variants, default config)  defined in c18_fmt.rs. The unchanged tree fails on a
+//! number of these cases (genuine formatter defects); each one is listed individually in
+//! /verif/known_findings.d/C18.json with the signature
+//!   `<repo-relative path>|<config>|<variant>|<kind>|<8 hex of sha256(first differing line pair)>`
+//! so a different file / config / variant / kind / place of failure is still a VIOLATION.
+//! VERIF_SEED permutes the order, the sharding, and which extra sub-cases quick runs.
 use crate::common::*;
 use crate::{Plan, Prop};
+use serde_json::{json, Value};
+
+#[path = "c18_fmt.rs"]
+pub mod fmt;
+use fmt::*;
 
 pub static META: PropertyMeta = PropertyMeta {
     id: "C18",
     level: "exploration",
-    rule: "not implemented",
-    assumptions: &[],
-    floor_evaluations: 1,
-    floor_nontrivial: 2,
-    required_counters: &[],
+    rule: "fixed enumeration: every .sw file under /repo x (12 formatter configs with the file as is + 9 text variants [CRLF, one-line re-flow, one-token-per-line re-flow, doubled / stripped blank lines, tabs + trailing blanks, inserted line / trailing / block comments] with the default config); quick = every file with the default config plus 6 seed-chosen other sub-cases per file, thorough = all; an evaluation = a case whose first pass formatted and whose second pass was compared; non-trivial = first pass succeeded and the input has >= 20 tokens; distinct = hash of (path, config, variant)",
+    assumptions: &[
+        "the formatter is deterministic for a given (text, config): a fresh Formatter is built per call, as forc-fmt does per invocation",
+        "the lexer of sway-parse is trusted to delimit tokens and comments when the text variants are built",
+    ],
+    floor_evaluations: 1500,
+    floor_nontrivial: 1000,
+    required_counters: &["first_pass_ok", "second_pass_identical", "rejected_by_formatter_parser", "configs_nondefault_cases", "variant_cases"],
 };
 
 pub static PROP: Prop = Prop {
     meta: &META,
-    plan: |_t| Plan { nshards: 1, budget_s: 1.0, mem_gib: 0 },
-    shard: |_ctx| {
-        let mut r = ShardResult::default();
-        r.harness_fault = Some("not implemented".into());
-        r
-    },
-    replay: crate::no_replay,
-    extra: crate::no_extra,
-    subcommand: crate::no_subcommand,
+    plan: |t| Plan { nshards: t.pick(12, 16), budget_s: t.pick(75.0, 1200.0), mem_gib: 6 },
+    shard,
+    replay,
+    extra,
+    subcommand,
 };
+
+pub fn signature(case: &CaseId, kind: &str, detail: &str) -> String {
+    format!("{}|{}|{}|{}|{}", case.file, case.config, case.variant, kind, &sha_hex(detail.as_bytes())[..8])
+}
+
+/// One case: x is the (variant) text. Returns true if the oracle was evaluated.
+pub fn check(case: &CaseId, x: &str, ntokens: usize, res: &mut ShardResult) {
+    let Some(cfg) = config_by_name(case.config) else {
+        res.inconclusive(format!("unknown config {}", case.config));
+        return;
+    };
+    res.count("cases");
+    if case.config != CONFIGS[0] {
+        res.count("configs_nondefault_cases");
+    }
+    if case.variant != VARIANTS[0] {
+        res.count("variant_cases");
+    }
+    let replay = || json!({"file": case.file, "config": case.config, "variant": case.variant, "input": x});
+    let f1 = match run_fmt(x, &cfg) {
+        FmtOut::Ok(s) => s,
+        FmtOut::ParseRejected(_) => {
+            res.count("rejected_by_formatter_parser");
+            return;
+        }
+        FmtOut::OtherError(e) => {
+            // accepted by the parser but no output: nothing to be idempotent about
+            res.count("first_pass_formatter_error");
+            res.count(&format!("first_pass_error[{}]", short(&e, 40)));
+            return;
+        }
+        FmtOut::Panic(loc, msg) => {
+            res.count("first_pass_panic");
+            res.inconclusive(format!("{}: formatter panicked on the first pass at {loc}: {}", case.key(), short(&msg, 100)));
+            return;
+        }
+    };
+    res.count("first_pass_ok");
+    res.count(&format!("ok_config[{}]", case.config));
+    res.count(&format!("ok_variant[{}]", case.variant));
+    res.evaluations += 1;
+    if ntokens >= 20 {
+        res.note_nontrivial(hash64(case.key().as_bytes()));
+    }
+    res.max("max_input_bytes", x.len() as u64);
+    res.add("bytes_formatted", x.len() as u64);
+    if f1 != x {
+        res.count("first_pass_changed_text");
+    } else {
+        res.count("input_already_formatted");
+    }
+    match run_fmt(&f1, &cfg) {
+        FmtOut::Ok(f2) => {
+            if f2 == f1 {
+                res.count("second_pass_identical");
+                if res.samples.is_empty() && ntokens >= 20 && !case.file.starts_with("builtin:") {
+                    res.sample(json!({"case": case.json(), "input_bytes": x.len(), "formatted_bytes": f1.len(), "tokens": ntokens, "second_pass": "identical"}));
+                }
+            } else if case.config == "newline_windows" && only_blank_lines_dropped_after_crlf(&f1, &f2) {
+                // ONE systematic defect, reported under one class signature (not per file): with
+                // newline_style = Windows the output has CRLF line ends, and on a CRLF input
+                // swayfmt/src/utils/map/newline.rs::newline_map_from_src (which only recognises
+                // "\n" directly after `;` / `}`) finds no blank lines, so the second pass removes
+                // every blank line the first pass kept. The predicate is exact: fmt(x) uses CRLF,
+                // and fmt(fmt(x)) equals fmt(x) with some blank lines removed and nothing else
+                // changed. Any other difference under this config is reported per file as usual.
+                res.count("second_pass_differs");
+                res.count("windows_crlf_blank_lines_dropped");
+                res.violation(WINDOWS_CLASS_SIGNATURE, "swayfmt is not idempotent under newline_style = Windows: the second pass over its own CRLF output drops the blank lines (newline_map_from_src only recognises LF after `;` / `}`); seen on every corpus file that has a blank line", replay());
+            } else {
+                let (line, a, b) = first_line_diff(&f1, &f2);
+                res.count("second_pass_differs");
+                res.violation(
+                    signature(case, "non-idempotent", &format!("{}\n{}", a.trim(), b.trim())),
+                    format!("swayfmt not idempotent on {} [config {}, variant {}]: line {line} of fmt(x) is `{}` but fmt(fmt(x)) has `{}`", case.file, case.config, case.variant, short(a.trim(), 90), short(b.trim(), 90)),
+                    replay(),
+                );
+            }
+        }
+        FmtOut::ParseRejected(e) => {
+            res.count("second_pass_rejected");
+            res.violation(signature(case, "second-pass-rejected", ""), format!("swayfmt output for {} [config {}, variant {}] is rejected by swayfmt's own parser on the second pass: {}", case.file, case.config, case.variant, short(&e, 120)), replay());
+        }
+        FmtOut::OtherError(e) => {
+            res.count("second_pass_error");
+            res.violation(signature(case, "second-pass-error", &e), format!("swayfmt fails on its own output for {} [config {}, variant {}]: {e}", case.file, case.config, case.variant), replay());
+        }
+        FmtOut::Panic(loc, msg) => {
+            res.count("second_pass_panic");
+            res.violation(signature(case, "second-pass-panic", &panic_signature(&loc, &msg)), format!("swayfmt panics on its own output for {} [config {}, variant {}]: {} at {loc}", case.file, case.config, case.variant, short(&msg, 100)), replay());
+        }
+    }
+}
+
+pub const WINDOWS_CLASS_SIGNATURE: &str = "*|newline_windows|*|non-idempotent|crlf-input-loses-blank-lines";
+
+/// f1 has CRLF line ends and f2 is f1 with one or more blank lines removed (nothing else).
+pub fn only_blank_lines_dropped_after_crlf(f1: &str, f2: &str) -> bool {
+    if !f1.contains("\r\n") {
+        return false;
+    }
+    let l1: Vec<&str> = f1.split('\n').collect();
+    let l2: Vec<&str> = f2.split('\n').collect();
+    if l2.len() >= l1.len() {
+        return false;
+    }
+    let is_blank = |l: &str| l == "\r" || l.is_empty();
+    // f2 must be a subsequence of f1 whose skipped lines are all blank
+    let mut j = 0;
+    for l in &l1 {
+        if j < l2.len() && l2[j] == *l {
+            j += 1;
+        } else if !is_blank(l) {
+            return false;
+        }
+    }
+    j == l2.len()
+}
+
+/// Drive the cases of one file through `check_fn` (shared with C19).
+pub fn run_file(file: &str, subs: &[(&'static str, &'static str)], res: &mut ShardResult, check_fn: &mut dyn FnMut(&CaseId, &str, usize, &mut ShardResult)) {
+    let Some(text) = read_corpus_file(file) else {
+        res.count("corpus_file_unreadable_or_not_utf8");
+        return;
+    };
+    res.count("corpus_files");
+    let lx = lex(&text);
+    let ntokens = lx.as_ref().map(|l| count_leaves(&l.tree)).unwrap_or(0);
+    if lx.is_err() {
+        res.count("corpus_files_not_lexable");
+    }
+    let annotated_fields = lx.as_ref().map(|l| field_lists_have_annotations(&l.tree)).unwrap_or(false);
+    for &(config, variant) in subs {
+        if config == "align_fields40" && annotated_fields && !file.starts_with("builtin:") {
+            // see c18_fmt.rs::field_lists_have_annotations
+            res.count("config_not_applicable[align_fields40: annotated fields]");
+            continue;
+        }
+        let case = CaseId { file: file.to_string(), config, variant };
+        let x = if variant == VARIANTS[0] {
+            Some(text.clone())
+        } else {
+            match &lx {
+                Ok(lx) => make_variant(variant, &text, lx),
+                Err(_) => None,
+            }
+        };
+        match x {
+            Some(x) => check_fn(&case, &x, ntokens, res),
+            None => res.count("variant_not_applicable"),
+        }
+    }
+}
+
+pub fn run_builtins(res: &mut ShardResult, check_fn: &mut dyn FnMut(&CaseId, &str, usize, &mut ShardResult)) {
+    for (name, config, _) in BUILTINS {
+        res.count("builtin_witnesses");
+        let cfg = intern_config(config).expect("builtin config");
+        run_file(name, &[(cfg, VARIANTS[0])], res, check_fn);
+    }
+}
+
+pub fn shard_with(ctx: &ShardCtx, extra_quick: usize, check_fn: fn(&CaseId, &str, usize, &mut ShardResult)) -> ShardResult {
+    let ctx = ctx.clone();
+    on_big_stack(move || {
+        let mut res = ShardResult::default();
+        let files = corpus();
+        res.max("max_corpus_size", files.len() as u64);
+        let mine = shard_files(&files, ctx.seed, ctx.shard, ctx.nshards);
+        let mut f = check_fn;
+        if ctx.shard == 0 {
+            run_builtins(&mut res, &mut f);
+        }
+        for (n, file) in mine.iter().enumerate() {
+            if !ctx.time_left() {
+                res.add("files_skipped_time_budget", (mine.len() - n) as u64);
+                break;
+            }
+            journal_current(&ctx, file);
+            let subs = tier_subcases(ctx.tier, ctx.seed, file, extra_quick);
+            run_file(file, &subs, &mut res, &mut f);
+            if n % 50 == 49 {
+                write_partial(&ctx, &res);
+            }
+        }
+        res
+    })
+}
+
+fn shard(ctx: &ShardCtx) -> ShardResult {
+    shard_with(ctx, 6, check)
+}
+
+pub fn replay_with(case: &Value, check_fn: fn(&CaseId, &str, usize, &mut ShardResult)) -> ShardResult {
+    let case = case.clone();
+    on_big_stack(move || {
+        let mut res = ShardResult::default();
+        let file = case["file"].as_str().unwrap_or("").to_string();
+        let (Some(config), Some(variant)) = (case["config"].as_str().and_then(intern_config), case["variant"].as_str().and_then(intern_variant)) else {
+            res.harness_fault = Some("replay case names an unknown config or variant".into());
+            return res;
+        };
+        let id = CaseId { file, config, variant };
+        match case["input"].as_str() {
+            Some(x) => {
+                let ntokens = lex(x).map(|l| count_leaves(&l.tree)).unwrap_or(0);
+                check_fn(&id, x, ntokens, &mut res);
+            }
+            None => {
+                let mut f = check_fn;
+                run_file(&id.file.clone(), &[(config, variant)], &mut res, &mut f);
+            }
+        }
+        res
+    })
+}
+
+fn replay(case: &Value) -> ShardResult {
+    replay_with(case, check)
+}
+
+pub fn extra(res: &ShardResult) -> Value {
+    let c = |k: &str| res.counters.get(k).copied().unwrap_or(0);
+    json!({
+        "configs": CONFIGS,
+        "variants": VARIANTS,
+        "enumeration_complete": c("files_skipped_time_budget") == 0 && c("shards_crashed") == 0,
+        "corpus_files_seen": c("corpus_files"),
+    })
+}
+
+// ------------------------------------------------------------------------------------------
+// helper subcommands (triage; not used by the checks themselves)
+//   swverif c18-enumerate <C18|C19> <out.json>     run the whole enumeration, write the findings
+//   swverif c18-show <C18|C19> <file> <config> <variant> [dir]   dump x, fmt(x), fmt(fmt(x))
+
+pub fn enumerate_all(prop: &str, check_fn: fn(&CaseId, &str, usize, &mut ShardResult), out: &str) -> i32 {
+    use rayon::prelude::*;
+    let files = corpus();
+    let pool = rayon::ThreadPoolBuilder::new().num_threads(14).stack_size(512 << 20).build().expect("pool");
+    let subs = subcases();
+    let results: Vec<ShardResult> = pool.install(|| {
+        files
+            .par_iter()
+            .map(|f| {
+                let mut r = ShardResult::default();
+                let mut cf = check_fn;
+                run_file(f, &subs, &mut r, &mut cf);
+                r
+            })
+            .collect()
+    });
+    let mut list = vec![];
+    let mut total = ShardResult::default();
+    let mut results = results;
+    {
+        let mut r = ShardResult::default();
+        let mut cf = check_fn;
+        run_builtins(&mut r, &mut cf);
+        results.push(r);
+    }
+    let mut seen = std::collections::BTreeSet::new();
+    for r in results {
+        for v in &r.violations {
+            if seen.insert(v.signature.clone()) {
+                list.push(json!({"property": prop, "signature": v.signature, "description": v.description, "status": "open"}));
+            }
+        }
+        let mut r2 = r;
+        r2.violations.clear();
+        total.merge(r2);
+    }
+    std::fs::write(out, serde_json::to_string_pretty(&Value::Array(list.clone())).unwrap()).expect("write");
+    println!("{prop}: {} failing cases written to {out}; evaluations={} counters={:?} inconclusive={:?}", list.len(), total.evaluations, total.counters, total.inconclusive_notes);
+    0
+}
+
+fn subcommand(args: &[String]) -> Option<i32> {
+    match args.first().map(|s| s.as_str()) {
+        Some("c18-enumerate") if args.len() >= 3 => {
+            let code = match args[1].as_str() {
+                "C18" => enumerate_all("C18", check, &args[2]),
+                "C19" => enumerate_all("C19", crate::c19::check, &args[2]),
+                _ => 2,
+            };
+            Some(code)
+        }
+        Some("c18-calib2") if args.len() >= 2 => {
+            use rayon::prelude::*;
+            let kind = args[1].clone();
+            let files = corpus();
+            let pool = rayon::ThreadPoolBuilder::new().num_threads(14).stack_size(512 << 20).build().expect("pool");
+            let rs: Vec<Vec<((String, String), bool)>> = pool.install(|| {
+                files
+                    .par_iter()
+                    .map(|f| {
+                        let mut out = vec![];
+                        let Some(text) = read_corpus_file(f) else { return out };
+                        let Ok(lx) = lex(&text) else { return out };
+                        let (x, classes) = calib_insert_all(&kind, &text, &lx);
+                        let FmtOut::Ok(y) = run_fmt(&x, &config_by_name("default").unwrap()) else { return out };
+                        for (id, c) in classes.into_iter().enumerate() {
+                            let lost = !y.contains(&format!("vq{}q", id));
+                            out.push((c, lost));
+                        }
+                        out
+                    })
+                    .collect()
+            });
+            let mut tally: std::collections::BTreeMap<(String, String), (u64, u64)> = Default::default();
+            let mut by_prev: std::collections::BTreeMap<String, (u64, u64)> = Default::default();
+            for r in rs {
+                for (c, lost) in r {
+                    let e = tally.entry(c.clone()).or_default();
+                    e.0 += 1;
+                    e.1 += lost as u64;
+                    let e = by_prev.entry(c.0).or_default();
+                    e.0 += 1;
+                    e.1 += lost as u64;
+                }
+            }
+            println!("== by previous token class: inserted lost");
+            for (k, v) in &by_prev {
+                println!("{:>16} {:>8} {:>8}", k, v.0, v.1);
+            }
+            println!("== by (prev,next) with >= 20 insertions");
+            for (k, v) in &tally {
+                if v.0 >= 20 {
+                    println!("{:>16} {:>16} {:>8} {:>8}", k.0, k.1, v.0, v.1);
+                }
+            }
+            Some(0)
+        }
+        Some("c18-show") if args.len() >= 5 => {
+            let a = args.to_vec();
+            Some(on_big_stack(move || show(&a)))
+        }
+        _ => None,
+    }
+}
+
+fn show(args: &[String]) -> i32 {
+    let (Some(config), Some(variant)) = (intern_config(&args[3]), intern_variant(&args[4])) else {
+        eprintln!("unknown config/variant");
+        return 2;
+    };
+    let file = args[2].clone();
+    let check_fn: fn(&CaseId, &str, usize, &mut ShardResult) = if args[1] == "C19" { crate::c19::check } else { check };
+    let mut res = ShardResult::default();
+    let mut f = check_fn;
+    run_file(&file, &[(config, variant)], &mut res, &mut f);
+    for v in &res.violations {
+        println!("VIOLATION {} :: {}", v.signature, v.description);
+    }
+    println!("counters: {:?}", res.counters);
+    if let Some(dir) = args.get(5) {
+        std::fs::create_dir_all(dir).ok();
+        let text = read_corpus_file(&file).unwrap_or_default();
+        let x = match lex(&text) {
+            Ok(lx) => make_variant(variant, &text, &lx).unwrap_or(text.clone()),
+            Err(_) => text.clone(),
+        };
+        let cfg = config_by_name(config).unwrap();
+        std::fs::write(format!("{dir}/x.sw"), &x).ok();
+        let first = run_fmt(&x, &cfg);
+        if !matches!(first, FmtOut::Ok(_)) {
+            println!("first pass: {first:?}");
+        }
+        let _ = std::fs::remove_file(format!("{dir}/f1.sw"));
+        let _ = std::fs::remove_file(format!("{dir}/f2.sw"));
+        if let FmtOut::Ok(f1) = first {
+            std::fs::write(format!("{dir}/f1.sw"), &f1).ok();
+            match run_fmt(&f1, &cfg) {
+                FmtOut::Ok(f2) => {
+                    std::fs::write(format!("{dir}/f2.sw"), &f2).ok();
+                }
+                other => println!("second pass: {other:?}"),
+            }
+        }
+    }
+    0
+}
